@@ -130,7 +130,7 @@ Shape(p) == LET k == FirstOp(p, 1) IN
 CffStart(X, raw) == IF raw THEN 0 ELSE X.cff.off
 CffCase(e, F, S) ==
   LET A == CffFont(F.path, F.cff.off)
-      B == CffFont(e.subset, IF e.rawCff THEN 0 ELSE S.cff.off)
+      B == CffFont(FileSrc(e.subset), IF e.rawCff THEN 0 ELSE S.cff.off)
       cm == CmapOf(F)
       M(c) == LET T == {i \in 1..Len(e.mapping) : e.mapping[i].c = c} IN IF T = {} THEN 0 - 1 ELSE e.mapping[CHOOSE i \in T : TRUE].g
   IN (IF A.ok THEN {} ELSE {[problem |-> "the ORIGINAL CFF cannot be read by the specification (oracle limit)"]})
